@@ -6,6 +6,7 @@ import (
 	sdkmath "cosmossdk.io/math"
 	"fmt"
 	"strconv"
+	"strings"
 
 	sdk "github.com/cosmos/cosmos-sdk/types"
 	banktypes "github.com/cosmos/cosmos-sdk/x/bank/types"
@@ -43,7 +44,10 @@ type c06Withdraw struct{}
 type c06Send struct{}
 type c06Restart struct{}
 type c06SetInfo struct{}
-type c06Execs struct{ e1, e2 bool }
+type c06Execs struct {
+	e1, e2 bool
+	upper  bool // e1 is written into the parameters in upper-case bech32: the same account
+}
 
 func (c06Sys) Root() *c06State {
 	w := world.NewL2(world.L2Options{
@@ -75,8 +79,9 @@ func (c06Sys) Letters(s *c06State) []engine.Letter {
 	}
 	ls = append(ls, engine.Letter{Name: "UserWithdraw(alice,1)", Data: c06Withdraw{}})
 	ls = append(ls, engine.Letter{Name: "BankSend(alice->bob,1)", Data: c06Send{}})
-	ls = append(ls, engine.Letter{Name: "SetExecutors(e2)", Data: c06Execs{false, true}})
-	ls = append(ls, engine.Letter{Name: "SetExecutors(e1,e2)", Data: c06Execs{true, true}})
+	ls = append(ls, engine.Letter{Name: "SetExecutors(e2)", Data: c06Execs{false, true, false}})
+	ls = append(ls, engine.Letter{Name: "SetExecutors(e1,e2)", Data: c06Execs{true, true, false}})
+	ls = append(ls, engine.Letter{Name: "SetExecutors(E1-IN-UPPER-CASE,e2)", Data: c06Execs{true, true, true}})
 	ls = append(ls, engine.Letter{Name: "RestartViaGenesis", Data: c06Restart{}})
 	// the executor registers (first time) or refreshes the bridge info: other handlers' bookkeeping,
 	// the deposit sequence is none of its business
@@ -144,7 +149,11 @@ func (c06Sys) Step(s *c06State, l engine.Letter) (*c06State, string, *engine.Vio
 	case c06Execs:
 		var execs []string
 		if d.e1 {
-			execs = append(execs, world.Addr("e1").String())
+			e := world.Addr("e1").String()
+			if d.upper {
+				e = strings.ToUpper(e)
+			}
+			execs = append(execs, e)
 		}
 		if d.e2 {
 			execs = append(execs, world.Addr("e2").String())
